@@ -215,23 +215,27 @@ Print Assumptions C08_handler_error_shapes_pinned.
 (* ---- chk_sound: the spec checker (Model/C08Check.v) applied to REAL observations decides with
    functions that agree with the model's oracles, and the clauses it evaluates at a finalisation,
    an application and an accepted vote hold in EVERY run of the instantiated model ([cP] = the
-   parameters read from the tree).  Not covered: the checker's bookkeeping across a whole trace
+   parameters read from the tree).  The checker's ELIGIBLE electorate is the holders (individually or via a
+   role) that are not blacklisted -- never more than what the code enumerates; the finalisation theorem assumes that no
+   veto-capable holder is blacklisted (otherwise the code counts more veto-capable voters than the checker).  Not covered: the checker's bookkeeping across a whole trace
    (ck_run) and the veto clause for dynamic-voter contents, where the model follows the code and the
    checker the property text (known finding passed_despite_veto:dynamic_voter_proposal). *)
 Theorem C08_chk_sound_oracles : forall w who ct,
   fst (spec_window w ct) = w_end_secs w ct /\ snd (spec_window w ct) = w_enact_secs w ct
   /\ spec_quorum w ct = w_quorum w ct
   /\ may_vote w who ct = w_is_active w who && w_can w who (vote_perm ct) ct
-  /\ ((vote_perm ct =? 0) = false -> eligible w ct = w_nvoters w ct /\ forall f, veto_capable w ct = w_nveto f w ct).
+  /\ ((vote_perm ct =? 0) = false -> holders_count w ct = w_nvoters w ct /\ (forall f, holders_veto w ct = w_nveto f w ct))
+  /\ ((vote_perm ct =? 0) = false -> eligible w ct <= holders_count w ct).
 Proof.
   exact (fun w who ct => conj (proj1 (chk_window_matches w ct)) (conj (proj2 (chk_window_matches w ct))
-           (conj (chk_quorum_matches w ct) (conj (chk_may_vote_matches w who ct) (chk_electorate_matches w ct))))).
+           (conj (chk_quorum_matches w ct) (conj (chk_may_vote_matches w who ct) (conj (chk_electorate_matches w ct) (chk_eligible_le_holders w ct)))))).
 Qed.
 Print Assumptions C08_chk_sound_oracles.
 
 Theorem C08_chk_sound_finalisation : forall w0 ops id tl nv q mine cf af l1 l2 p,
   log (run cP ops (init w0)) = l1 ++ EvFinal id Enactment tl nv q mine cf af :: l2 ->
   submit_of id l2 = Some p -> (vote_perm (p_content p) =? 0) = false ->
+  0 <= n_quorum (w_np af) -> veto_capable af (p_content p) = holders_veto af (p_content p) ->
   (p_vend p <=? now cf) && (p_minv p <=? height cf) = true
   /\ pass_clauses af (mkR id (p_content p) (p_vend p) (p_eend p) (p_minv p) 4 None 0 (sort_votes (votes_of id l2))) = [].
 Proof. exact chk_sound_finalisation. Qed.
